@@ -92,6 +92,11 @@ func streamEngine(t *testing.T, o *Out, p EngProfile) {
 			t.Fatalf("corpus line %q: %v", parts[1], err)
 		}
 		if err := env.prepare(c, nil); err != nil {
+			if errors.Is(err, errLeak) {
+				id++
+				o.Emit("engine", fmt.Sprintf("leak%d", id), c.Payload(), "res=network-leak/none\tcalls=0\topl=0\tx_detail="+strings.ReplaceAll(err.Error(), "\t", " "), true)
+				continue
+			}
 			t.Fatalf("corpus %s: %v", parts[1], err)
 		}
 		o.Count("corpus")
